@@ -62,7 +62,7 @@ def mi_value(spec):
     """(argument for collocate, exact ns as the generator means it)"""
     k, v = spec["kind"], spec["v"]
     if k == "num":
-        return v, int(v) * 10 ** 9
+        return v, int(round(v * 10 ** 6)) * 1000
     if k == "td_us":
         return dt.timedelta(microseconds=v), v * 1000
     return v, spec["ns"]
@@ -209,7 +209,7 @@ def run_call(ck, col, rec, call, R, state, use_model, lines_cb):
         errtxt = f"{type(e).__name__}: {e}"
     slim = {k: v for k, v in call.items()}
     must, may = oracle(call, R)
-    sig = "colloc-window-ns-truncation" if has_sub_us(call) else None
+    sig = None
     npts = len(flat_points(call["p"])), len(flat_points(call["s"]))
     kind = ("grid" if call["p"].get("grid") or call["s"].get("grid") else "linear") + \
            ("/binned" if rec.bins else "/direct") + ("/hist" if state.get("calls", 0) else "")
@@ -273,7 +273,7 @@ def run_call(ck, col, rec, call, R, state, use_model, lines_cb):
     if not use_model:
         return
     # ---- model side
-    codes = Codes()
+    codes = state.setdefault("codes", Codes())     # one numbering per Collocator object (the cache test compares coordinates)
     lines = ["clear"]
     k = state.get("built", 0)
     for ev in rec.events:
@@ -440,7 +440,8 @@ def run_binned_direct(ck, rec, case, R, use_model, lines_cb):
 # ---------------------------------------------------------------- generators
 MI_SPECS = [
     {"kind": "str", "v": "1 s", "ns": 10 ** 9}, {"kind": "str", "v": "1500 ms", "ns": 1500 * 10 ** 6},
-    {"kind": "num", "v": 2}, {"kind": "num", "v": 1}, {"kind": "str", "v": "1 min", "ns": 60 * 10 ** 9},
+    {"kind": "num", "v": 2}, {"kind": "num", "v": 1}, {"kind": "num", "v": 1.5}, {"kind": "num", "v": 0.25},
+    {"kind": "str", "v": "1 min", "ns": 60 * 10 ** 9},
     {"kind": "td_us", "v": 250000}, {"kind": "str", "v": "2 h", "ns": 7200 * 10 ** 9},
     {"kind": "str", "v": "10 s", "ns": 10 ** 10}, {"kind": "td_us", "v": 1}, {"kind": "num", "v": 30},
     {"kind": "str", "v": "750 us", "ns": 750000},
@@ -503,7 +504,7 @@ def gen_call(rng, R, max_n):
     mi = rng.choice(MI_SPECS)
     _, mi_ns = mi_value(mi)
     md, km = gen_md(rng)
-    unit = rng.choice([u for u in (10 ** 9, 10 ** 6, 10 ** 3) if u <= max(mi_ns, 1000)] or [1000])
+    unit = rng.choice([u for u in (10 ** 9, 10 ** 6, 10 ** 3, 1, 1) if u <= max(mi_ns, 1000)] or [1000])
     n = rng.choice([1, 1, 2, 3, rng.randint(1, 12), rng.randint(1, 60), rng.randint(1, max_n)])
     m = rng.choice([1, 2, 3, rng.randint(1, 12), rng.randint(1, 60), rng.randint(1, max_n)])
     p, s = gen_pair(rng, n, m, mi_ns, km, R, unit, nan_rate=rng.choice([0, 0, 0.1, 0.3]))
@@ -734,7 +735,7 @@ def main():
     ck.build()
     use_model = ck.build_ok is not False or os.path.exists(os.path.join(ck.pkgdir, ".lake/build/bin/drv_c04"))
     th = ck.tier == "thorough"
-    explore(ck, ck.budget(150, 2500), ck.budget(25, 400), ck.budget(40, 800), ck.budget(2, 30), 3000 if th else 300, use_model)
+    explore(ck, ck.budget(300, 2500), ck.budget(60, 400), ck.budget(120, 800), ck.budget(3, 30), 3000 if th else 300, use_model)
     if ck.broken() and not ck.violations:
         explore(ck, 1500, 200, 400, 4, 300, use_model=False)
     ck.finish()
